@@ -144,6 +144,13 @@ fn hash_int_function(
     let hash = hasher.finish();
 
     let result = if allow_leading_zero {
+        // the width of a format argument is limited to u16; a larger one panics
+        if length > u16::MAX as usize {
+            return Err(tera::Error::msg(format!(
+                "hash_int length {length} is too large (maximum {})",
+                u16::MAX
+            )));
+        }
         format!("{:0width$}", hash, width = length)
     } else {
         format!("{}", hash)
